@@ -29,7 +29,8 @@ CONSTANT Prefixes          \* fallback prefixes in priority order, e.g. <<"p/">>
 Absent == [syn |-> FALSE, ext |-> "", inc |-> "", incpos |-> "", a |-> "none", b |-> "none", nest |-> FALSE, cap |-> FALSE, sa |-> FALSE,
            z |-> FALSE, unk |-> FALSE, comp |-> FALSE, usec |-> FALSE, here |-> FALSE,
            v2 |-> FALSE,
-           sib |-> FALSE]     \* sib: block a holds, after its nested block b, a second NEW block c (siblings introduced inside a)      \* v2: the same template with other literal text of the SAME length (M for L, [ for ( )
+           sib |-> FALSE,     \* sib: block a holds, after its nested block b, a second NEW block c (siblings introduced inside a)
+           deep |-> FALSE]    \* deep: the nested block b holds a NEW block c and calls super() AFTER it (three levels of nesting)      \* v2: the same template with other literal text of the SAME length (M for L, [ for ( )
 Leaf == [Absent EXCEPT !.syn = TRUE, !.here = TRUE]
 Present(T) == {n \in DOMAIN T : T[n].here}
 
@@ -60,7 +61,7 @@ RECURSIVE Rev(_)
 Rev(s) == IF s = <<>> THEN <<>> ELSE Rev(Tail(s)) \o <<Head(s)>>
 Parents(T, n) == Rev(Ancestors(T, n))                       \* root first, as the engine stores them
 Defines(d, blk) == IF blk = "a" THEN d.a # "none" ELSE IF blk = "b" THEN d.b # "none"
-                   ELSE IF blk = "c" THEN d.sib /\ d.nest /\ d.a # "none" /\ d.b # "none" ELSE d.z
+                   ELSE IF blk = "c" THEN (d.sib \/ d.deep) /\ d.nest /\ d.a # "none" /\ d.b # "none" ELSE d.z
 Supers(d, blk) == IF blk = "a" THEN d.a = "super" ELSE IF blk = "b" THEN d.b = "super" ELSE FALSE
 TopLevel(d, blk) == Defines(d, blk) /\ ~(blk = "b" /\ d.nest /\ d.a # "none")
 Blocks == {"a", "b", "z"}
@@ -117,9 +118,10 @@ BlockText(T, entry, blk, lvl, fuel, mode) ==
   IF lvl > Len(lin) THEN "!nosuper!"
   ELSE LET t == lin[lvl] d == T[t] IN
        blk \o t \o (IF d.v2 THEN "[" ELSE "(")
-       \o (IF Supers(d, blk) /\ ~(blk = "a" /\ d.sa) THEN BlockText(T, entry, blk, lvl + 1, fuel, mode) ELSE "")
+       \o (IF Supers(d, blk) /\ ~(blk = "a" /\ d.sa) /\ ~(blk = "b" /\ d.deep) THEN BlockText(T, entry, blk, lvl + 1, fuel, mode) ELSE "")
        \o (IF blk = "a" /\ d.nest /\ d.b # "none" THEN RB(T, entry, "b", fuel) \o (IF d.sib THEN RB(T, entry, "c", fuel) ELSE "") ELSE "")
-       \o (IF Supers(d, blk) /\ blk = "a" /\ d.sa THEN BlockText(T, entry, blk, lvl + 1, fuel, mode) ELSE "")
+       \o (IF blk = "b" /\ d.deep THEN RB(T, entry, "c", fuel) ELSE "")
+       \o (IF Supers(d, blk) /\ ((blk = "a" /\ d.sa) \/ (blk = "b" /\ d.deep)) THEN BlockText(T, entry, blk, lvl + 1, fuel, mode) ELSE "")
        \o (IF blk = "a" /\ d.inc # "" /\ d.incpos = "block" THEN Own(T, IncOf(T, t), fuel - 1) ELSE "")
        \o ")"
 RB(T, entry, blk, fuel) == BlockText(T, entry, blk, 1, fuel, "")
